@@ -345,7 +345,7 @@ def attach_module_step(H, case):
     H.cover("reached")
 
 
-@contract("attach_pattern_step", ["C14"], cases=lambda tier: [(k, k) for k in ("fresh", "empty", "owned_elsewhere", "owned_here")], replayable=False,
+@contract("attach_pattern_step", ["C14", "C17"], cases=lambda tier: [(k, k) for k in ("fresh", "empty", "owned_elsewhere", "owned_here", "clone_fresh", "clone_owned_elsewhere", "clone_owned_here")], replayable=False,
           targets=["rv.project:Project.attach_pattern"])
 def attach_pattern_step(H, case):
     """Project.attach_pattern on a pattern list of ANY length: a free pattern (or None) is appended at
@@ -356,7 +356,14 @@ def attach_pattern_step(H, case):
     rh = RefHeap("pats")
     p = Project()
     other = Project()
-    pat = Pattern(lines=1, tracks=1)
+    if case.startswith("clone_"):
+        # pattern clones are owned like patterns
+        from rv.pattern import PatternClone
+
+        pat = PatternClone(source=0)
+        case = case[len("clone_"):]
+    else:
+        pat = Pattern(lines=1, tracks=1)
     pref = rh.register(pat, "pat")
     items0, n0 = rh.items(), rh.length()
     c.add(n0 >= 0)
